@@ -1227,6 +1227,11 @@ static void self_test() {
   }
 }
 
+// ASan's default 256 MB quarantine (several GB of RSS with many tiny blocks) x 16 parallel shards exhausts the
+// machine, and the stack depot (30-frame contexts through rapidcheck's recursion) grows by ~8 KB per case; 16 MB and 8 frames still catch every use-after-free these cases can produce (blocks are reused within one case).
+// Flags given in ASAN_OPTIONS by ./check are parsed after these defaults and keep precedence.
+extern "C" const char *__asan_default_options() { return "quarantine_size_mb=16:malloc_context_size=8"; }
+
 int main(int argc, char **argv) {
   self_test();
   std::vector<Sub> subs;
